@@ -563,6 +563,10 @@ func (w *c11World) checkQuery(q *c11Query, name string) {
 func c11WorkerMain() {
 	in := bufio.NewReader(os.Stdin)
 	line, _ := in.ReadString('\n')
+	if strings.HasPrefix(strings.TrimSpace(line), "c11c ") { // get-or-create of the segstore table (c11_create.go)
+		c11cReplay(strings.TrimSpace(line))
+		return
+	}
 	if win, ok := c11ParseWindow(strings.TrimSpace(line)); ok {
 		c11WindowReplay(win)
 		return
@@ -881,6 +885,9 @@ func c11CrashFrame(stderr string) string {
 }
 
 func execConc(line string) Result {
+	if strings.HasPrefix(strings.TrimSpace(line), "c11c") {
+		return c11cExec(line)
+	}
 	_, labels, ok := c11Parse(line)
 	win, isWin := c11ParseWindow(strings.TrimSpace(line))
 	if !ok && !isWin {
@@ -974,7 +981,16 @@ var c11Fixed = []string{
 func genConc(r *rand.Rand, n int, tier string) []string {
 	var out []string
 	out = append(out, c11Fixed...)
+	out = append(out, c11cFixed...)
 	for len(out) < n {
+		if r.Intn(100) < 40 { // get-or-create of the segstore table (c11_create.go)
+			if r.Intn(25) == 0 {
+				out = append(out, []string{"c11c 0 c0", "c11c 5 c0", "c11c 1 c16", "c11c 1 f1", "c11c 2 e2", "c11c 1 x0", "c11c 1 c", "c11c", "c11c 1 c01"}[r.Intn(9)])
+			} else {
+				out = append(out, c11cGenLine(r, tier))
+			}
+			continue
+		}
 		if r.Intn(25) == 0 {
 			out = append(out, []string{"c11 0 f0", "c11 2 f2", "c11 1 x0", "c11 1 q0", "c11 1 q0x", "c11 01 f0", "c11", "c11 1 f-1", "c11 9 f0"}[r.Intn(9)])
 			continue
